@@ -8,9 +8,35 @@ result the same thunk gives alone on a fresh template object.
 Workload: templates over every block tag with per-thread distinct inputs, pre-cooked and
 uncooked; 2 threads: every 1-preemption schedule (each step of either thread), 2-preemption
 schedules over de-duplicated (file,line) sites; 3 threads: seeded random priority schedules.
+
+Per-thread inputs include *callables and classes looked up by name in the namespace*:
+comparison functions of sort="key/func" (static and through sort_expr, single and multi key),
+functions called from expressions, by dtml-var/in/with/if name lookup, fmt=method, exception
+classes raised through dtml-raise "expr" / by a called name (handled or not by dtml-except), and
+per-thread (unshared) sub-templates.
+Template kinds: string based HTML / String, file based HTMLFile / File (source read at the first
+render), a shared file based sub-template, HTMLDefault.
+Template histories (variants): cooked by cook(); uncooked (first renders race to compile);
+"rendered" (compiled by an earlier render with other values); "restored" (deep copy through
+__getstate__, i.e. what unpickling gives: compiled state dropped, all sub-templates too).
+Deep compile-race schedules (vlib/c18_util.py): preemption points right before/after every line
+on which a thread alone touches an instance attribute of the shared template objects that is
+written during the render (log taken by a harness subclass, attribute names not assumed);
+over these points: 3 threads with 2 preemptions of one thread (another thread runs to the end in
+each gap), 2 threads with 3 preemptions, thorough also 4.  Plus the 6 preemption-free orders of
+3 threads on every variant.
+"Same place" schedules: both threads stopped at matching steps of their traces (same line, same
+occurrence number), then A finishes, then B -- two threads inside the same region at once, the
+diagonal that the sampled 2-preemption pairs only touch by luck.
 """
+import atexit
+import copy
 import itertools
 import os
+import shutil
+import tempfile
+
+from vlib import c18_util as U
 
 ID = 'C18'
 LEVEL = 'exploration'
@@ -19,11 +45,33 @@ RULE = ('one case = (template, cooked/uncooked, schedule); schedules: all single
         'de-duplicated by (file,line) first/last occurrence, seeded random multi-preemption schedules '
         'of 3 threads; a case is non-trivial when at least one preemption was actually taken '
         '(both threads had started and neither had finished); distinct = distinct '
-        '(template, variant, schedule) tuples')
+        '(template, variant, schedule) tuples.  Added: templates whose per-thread values are functions / '
+        'classes found by name in the namespace (sort="key/func" comparison functions, called names, '
+        'raised exception classes, own sub-templates); file based templates (HTMLFile, File, shared HTMLFile '
+        'sub-template) and HTMLDefault; variants rendered (compiled by an earlier render with other '
+        'values) and restored (deep copy via __getstate__); deep compile-race schedules over the steps '
+        'at which a thread touches a written instance attribute of the shared template objects: '
+        '3 threads / 2 preemptions (all point pairs; uncooked, and restored for file based / '
+        'shared-sub-template / smallest templates, thorough: all), 2 threads / 3 preemptions '
+        '(quick: uncooked only, all triples up to 330 per role for file based templates and the smallest '
+        'template, seeded sample of 12 per role otherwise; thorough: all, both variants), 2 threads / 4 '
+        'preemptions (thorough, capped, caps counted); the 6 preemption-free orders of 3 threads on '
+        'each of the 4 variants; in the generic loop the callables templates run cooked only (their tags '
+        'are compiled in other uncooked units) and the file based one uncooked only (once cooked it runs '
+        'the code of a string based one); "same place" '
+        'schedules: A stops at every 16th (thorough 4th) step of its baseline trace, B at the matching '
+        'occurrence of the same (file,line) in its own, A finishes, B finishes (roles alternate; quick: '
+        'cooked variants and the single-variant templates)')
 ASSUMPTIONS = ['statement-line granularity inside src/DocumentTemplate and src/TreeDisplay; '
                'C extension calls and third-party code are atomic (GIL model of CPython 3.12)',
                'per-thread namespaces share no mutable objects except the template itself and the '
-               'objects in the template defaults (shared sub-templates)']
+               'objects in the template defaults (shared sub-templates)',
+               'deep compile-race schedules preempt only around accesses of instance attributes of the '
+               'shared template objects that are written during a render (found by a logging subclass in '
+               'a solo discovery run; fallback: 8 evenly spaced sites of the compile window); races on '
+               'other shared objects at depth > 2 are only sampled by the random schedules',
+               'per-thread comparison functions and other callables are harness code: atomic for the '
+               'scheduler, they share nothing between threads']
 SHARD_TIMEOUT = {'quick': 900, 'thorough': 3400}
 NSHARDS = {'quick': 16, 'thorough': 64}
 
@@ -100,7 +148,78 @@ def boom(i):
     return f
 
 
+# ---- per-thread callables / classes that the engine finds by NAME in the namespace
+CALLS = {'cmp': 0, 'fn': 0}        # reach evidence: how often the engine called them
+
+
+def _c3(a, b):
+    return (a > b) - (a < b)
+
+
+def cmp_text(a, b):
+    CALLS['cmp'] += 1
+    return _c3(a, b)
+
+
+def cmp_digits(a, b):              # 'X3' / 'y12' -> by the number behind the letter
+    CALLS['cmp'] += 1
+    return _c3(int(a[1:]), int(b[1:]))
+
+
+def cmp_text_desc(a, b):
+    CALLS['cmp'] += 1
+    return _c3(b, a)
+
+
+def cmp_int(a, b):
+    CALLS['cmp'] += 1
+    return _c3(a, b)
+
+
+def cmp_int_desc(a, b):
+    CALLS['cmp'] += 1
+    return _c3(b, a)
+
+
+def cmp_mod3(a, b):
+    CALLS['cmp'] += 1
+    return _c3((a % 3, a), (b % 3, b))
+
+
+CMP_S = [cmp_text, cmp_digits, cmp_text_desc]      # for the string key 's'
+CMP_I = [cmp_int_desc, cmp_mod3, cmp_int]          # for the integer keys 'a', 'b'
+
+
+class ErrA(Exception):
+    pass
+
+
+class ErrB(Exception):
+    pass
+
+
+def thrower(i):
+    def f():
+        CALLS['fn'] += 1
+        raise [ErrA, ErrA, ErrB][i % 3]('thrown%d' % i)
+    return f
+
+
+def named(i, label, value=None):
+    def f(*a):
+        CALLS['fn'] += 1
+        if value is not None:
+            return value
+        return '%s%d(%s)' % (label, i, ','.join(map(str, a)))
+    return f
+
+
+def own_template(i):
+    return classes()['HTML']('T%d<dtml-var x>:<dtml-var c missing=nc>;' % i)
+
+
 ITEM = '<dtml-var a>/<dtml-var b>/<dtml-var c>;'
+SITEM = '<dtml-var s>/<dtml-var a>;'
 # name -> (syntax class, source, namespace factory(i) -> kwargs, defaults factory() or None, guarded)
 TEMPLATES = [
     ('var', 'HTML', 'A<dtml-var x> B<dtml-var y upper> C&dtml-z; D<dtml-var "x+y" html_quote>',
@@ -180,17 +299,95 @@ GUARDED = [
                              '<dtml-with ob><dtml-var attr></dtml-with><dtml-var "_.getattr(ob, \'attr\')">',
      lambda i: dict(ob=Ob(attr='attr%d' % i), seq=objs(i), k='ab'[i % 2])),
 ]
+# per-thread functions / classes found by name in the namespace.  What is new here is in the
+# render phase (the tags themselves are compiled in the uncooked units of the templates above),
+# so these go through the generic loop in the cooked variant only (all four variants in the
+# order schedules, uncooked and restored in the deep schedules)
+CALLABLES = [
+    ('sort_func', 'HTML', '<dtml-in seq mapping sort="s/cf">' + SITEM + '</dtml-in>|'
+                          '<dtml-in seq mapping sort="b/ci,s/cf/desc">' + SITEM + '</dtml-in>|'
+                          '<dtml-in seq mapping sort_expr="k">' + SITEM + '</dtml-in>',
+     lambda i: dict(seq=rows(i, 4), cf=CMP_S[i % 3], ci=CMP_I[i % 3], k=['a/ci/desc', 's/cf', 'b/ci,a/ci'][i % 3])),
+    ('ns_callables', 'HTML', '<dtml-call "note(x)"><dtml-var "fn(x, 1)">|<dtml-var lazy>|'
+                             '<dtml-in rowsf mapping><dtml-var c>,</dtml-in>|'
+                             '<dtml-with obf><dtml-var attr></dtml-with>|'
+                             '<dtml-if pred>P<dtml-else>Q</dtml-if>|<dtml-var ob fmt=show>|'
+                             '<dtml-try><dtml-raise "etype">m<dtml-var x></dtml-raise><dtml-except ErrA>A<dtml-var error_value>'
+                             '<dtml-except ErrB>B<dtml-var error_value></dtml-try>|'
+                             '<dtml-try><dtml-var thrower><dtml-except ErrA>caught <dtml-var error_value></dtml-try>',
+     lambda i: dict(x='x%d' % i, note=named(i, 'note'), fn=named(i, 'fn'), lazy=named(i, 'lazy'),
+                    rowsf=named(i, 'rowsf', rows(i, 3)), obf=named(i, 'obf', Ob(attr='attr%d' % i)),
+                    pred=named(i, 'pred', i % 2), ob=Ob(show=named(i, 'show')),
+                    thrower=thrower(i), etype=[ErrB, ErrA, ErrB][i % 3])),
+]
+# file based templates: (name, class, source, namespace factory); the source is written to a
+# file of the shard's scratch directory; the engine reads it at the first render
+FILES = [
+    ('file_var', 'HTMLFile', 'A<dtml-var x> B<dtml-var y upper> <dtml-in seq>[<dtml-var sequence-item>]</dtml-in>',
+     lambda i: dict(x='x%d<' % i, y='y%d' % i, seq=['s%d-%d' % (i, j) for j in range(2 + i)])),
+]
+# templates that only take part in the cheap deep / order schedules (not in the generic 1p/2p loop)
+DEEP_ONLY = [
+    ('file_epfs', 'File', '%(x)s %(in seq mapping)[%(c)s,%(in seq)]%(if y)[yes%(else)[no%(if y)]',
+     lambda i: dict(x='x%d' % i, seq=rows(i, 3), y=i % 2)),
+    ('sort_expr_func', 'HTML', '<dtml-in seq sort_expr="k">' + SITEM + '</dtml-in>|'
+                               '<dtml-in seq sort_expr="k2" reverse_expr="r">' + SITEM + '</dtml-in>',
+     lambda i: dict(seq=objs(i, 4), k=['s/cf', 'a/ci/desc', 'b/ci,s/cf'][i % 3],
+                    k2=['a/ci', 's/cf/desc', 's/cf'][i % 3], r=i % 2,
+                    cf=CMP_S[i % 3], ci=CMP_I[i % 3])),
+    ('file_in', 'HTMLFile', '<dtml-in seq mapping sort_expr="k">' + ITEM + '</dtml-in>',
+     lambda i: dict(seq=rows(i, 4), k='ab'[i % 2])),
+    ('default_var', 'HTMLDefault', 'A<dtml-var x> <dtml-if y>Y<dtml-var y></dtml-if>',
+     lambda i: dict(x='x%d' % i, y=i % 2)),
+    ('own_subtemplate', 'HTML', '<dtml-var sub>|<dtml-in seq mapping><dtml-var sub></dtml-in>',
+     lambda i: dict(x='x%d' % i, seq=rows(i, 2), sub=own_template(i))),
+]
 
 
 def all_templates():
+    """'variants': the histories in which the template goes through the generic 1p / 2p / random
+    loops; every template takes part in the deep compile-race and order schedules."""
     out = []
+    both = ('cooked', 'uncooked')
     for t in TEMPLATES:
-        out.append(dict(name=t[0], cls=t[1], src=t[2], ns=t[3], defaults=None, guarded=False))
+        out.append(dict(name=t[0], cls=t[1], src=t[2], ns=t[3], defaults=None, guarded=False,
+                        variants=both, file=False))
     for t in SUBS:
-        out.append(dict(name=t[0], cls=t[1], src=t[2], ns=t[3], defaults=t[4], guarded=False))
+        out.append(dict(name=t[0], cls=t[1], src=t[2], ns=t[3], defaults=t[4], guarded=False,
+                        variants=both, file=False))
     for t in GUARDED:
-        out.append(dict(name=t[0], cls=t[1], src=t[2], ns=t[3], defaults=None, guarded=True))
+        out.append(dict(name=t[0], cls=t[1], src=t[2], ns=t[3], defaults=None, guarded=True,
+                        variants=both, file=False))
+    # a file based template that was cooked explicitly runs the very same code as a string
+    # based one: only its first renders (uncooked) go through the generic loop
+    for t in FILES:
+        out.append(dict(name=t[0], cls=t[1], src=t[2], ns=t[3], defaults=None, guarded=False,
+                        variants=('uncooked',), file=True))
+    # string based main template, *shared file based* sub-template in its defaults
+    out.append(dict(name='file_sub', cls='HTML', src='M<dtml-var x>[<dtml-var sub>]<dtml-in seq mapping>{<dtml-var sub>}</dtml-in>',
+                    ns=lambda i: dict(x='x%d' % i, seq=rows(i, 2)),
+                    defaults=lambda cls, resolve: dict(
+                        sub=resolve('HTMLFile')(source_file('file_sub.sub', 'S<dtml-var x>:<dtml-var c missing=nc>;'))),
+                    defaults_resolve=True, guarded=False, variants=(), file=True))
+    for t in CALLABLES:
+        out.append(dict(name=t[0], cls=t[1], src=t[2], ns=t[3], defaults=None, guarded=False,
+                        variants=('cooked',), file=False))
+    for t in DEEP_ONLY:
+        out.append(dict(name=t[0], cls=t[1], src=t[2], ns=t[3], defaults=None, guarded=False,
+                        variants=(), file=t[1] in ('HTMLFile', 'File')))
     return out
+
+
+VARIANTS = ('cooked', 'uncooked', 'rendered', 'restored')
+VKEY = {'cooked': 'c', 'uncooked': 'u', 'rendered': 'r', 'restored': 's'}
+
+
+def variant_of(v):
+    if v is True:
+        return 'cooked'
+    if v is False:
+        return 'uncooked'
+    return v
 
 
 _CLS = {}
@@ -200,6 +397,9 @@ def classes():
     if _CLS:
         return _CLS
     from DocumentTemplate.DT_HTML import HTML
+    from DocumentTemplate.DT_HTML import HTMLDefault
+    from DocumentTemplate.DT_HTML import HTMLFile
+    from DocumentTemplate.DT_String import File
     from DocumentTemplate.DT_String import String
 
     def ggetattr(self, ob, name):
@@ -215,20 +415,60 @@ def classes():
         guarded_getattr = ggetattr
         guarded_getitem = ggetitem
 
-    _CLS.update(HTML=HTML, String=String, GHTML=GHTML)
+    _CLS.update(HTML=HTML, String=String, GHTML=GHTML, HTMLFile=HTMLFile, File=File,
+                HTMLDefault=HTMLDefault)
     return _CLS
 
 
-def make_template(spec, cooked):
+_SCRATCH = []
+_PATHS = {}
+
+
+def source_file(name, src):
+    if name not in _PATHS:
+        if not _SCRATCH:
+            d = tempfile.mkdtemp(prefix='c18-files-')
+            _SCRATCH.append(d)
+            atexit.register(shutil.rmtree, d, True)
+        path = os.path.join(_SCRATCH[0], name + '.dtml')
+        with open(path, 'w') as f:
+            f.write(src)
+        _PATHS[name] = path
+    return _PATHS[name]
+
+
+def make_template(spec, variant, logged=False):
+    """A fresh template object in one of the histories VARIANTS (True/False = cooked/uncooked)."""
+    variant = variant_of(variant)
     cl = classes()
     cls = cl['GHTML'] if spec['guarded'] else cl[spec['cls']]
-    d = spec['defaults'](cls) if spec['defaults'] else {}
-    t = cls(spec['src'], **d)
-    if cooked:
+    if logged:
+        cls = U.logged(cls)
+    if not spec['defaults']:
+        d = {}
+    elif spec.get('defaults_resolve'):
+        d = spec['defaults'](cls, lambda n: U.logged(cl[n]) if logged else cl[n])
+    else:
+        d = spec['defaults'](cls)
+    if spec['cls'] in ('HTMLFile', 'File'):
+        t = cls(source_file(spec['name'], spec['src']), **d)
+    else:
+        t = cls(spec['src'], **d)
+    if variant in ('cooked', 'restored'):
         t.cook()
         for v in d.values():
             if hasattr(v, 'cook'):
                 v.cook()
+    if variant == 'restored':
+        # what pickling + unpickling gives (__getstate__ drops the compiled state), without
+        # needing importable classes; deep: the sub-templates of the defaults lose theirs too
+        t = copy.deepcopy(t)
+    elif variant == 'rendered':
+        # compiled by an earlier render with values no scheduled thread uses
+        try:
+            t(**spec['ns'](7))
+        except Exception:
+            pass
     return t
 
 
@@ -268,13 +508,19 @@ class Runner:
     def execute(self, spec, cooked, nthreads, segments, trace=False, kind='1p'):
         from vlib.sched import HarnessStuck
         ctx = self.ctx
-        t = make_template(spec, cooked)
+        variant = variant_of(cooked)
+        t = make_template(spec, variant)
         thunks = [thunk(t, spec, i) for i in range(nthreads)]
+        c0, f0, e0 = CALLS['cmp'], CALLS['fn'], self.sched.line_events
         try:
             ws = self.sched.execute(thunks, segments, trace=trace)
         except HarnessStuck as e:
             ctx.inconclusive('scheduler watchdog: %s (template %s)' % (e, spec['name']))
             raise
+        if CALLS['cmp'] != c0:
+            ctx.count('per-thread comparison function calls under schedules', CALLS['cmp'] - c0)
+        if CALLS['fn'] != f0:
+            ctx.count('per-thread namespace callables called under schedules', CALLS['fn'] - f0)
         taken = sum(len(w.preempted_at) for w in ws)
         overlapped = False
         # a preemption is "taken" when the parked worker had started and another had not finished
@@ -282,12 +528,22 @@ class Runner:
             for (step, f, line) in w.preempted_at:
                 overlapped = True
                 ctx.table('preemption_sites', '%s:%d' % (f, line))
-        desc = (spec['name'], cooked, nthreads, tuple(map(tuple, segments)))
+        desc = (spec['name'], variant, nthreads, tuple(map(tuple, segments)))
         ctx.case(desc, nontrivial=overlapped)
         ctx.count('executions:' + kind)
+        ctx.count('line events:' + kind, self.sched.line_events - e0)
         ctx.count('preemptions taken', taken)
+        if kind in DEEP_KINDS:
+            ctx.count('preemptions taken:' + kind, taken)
+            ctx.table('deep_executions', '%s/%s' % (kind, variant))
+        if spec['file']:
+            ctx.count('executions on file based templates')
+            if overlapped:
+                ctx.count('executions on file based templates with a preemption taken')
         if self.sched.lock.contended:
             ctx.count('cooklock: blocked acquisitions', self.sched.lock.contended)
+            if kind in DEEP_KINDS:
+                ctx.count('cooklock: blocked acquisitions in deep schedules', self.sched.lock.contended)
             self.sched.lock.contended = 0
         for w in ws:
             want = self.expect(spec, w.idx)
@@ -296,16 +552,19 @@ class Runner:
                 mech = None
                 ctx.violation(
                     'thread %d of template %r (%s) got %r under schedule %r, alone it gets %r'
-                    % (w.idx, spec['name'], 'cooked' if cooked else 'uncooked',
+                    % (w.idx, spec['name'], variant,
                        short(w.result), segments, short(want)),
-                    {'template': spec['name'], 'cooked': cooked, 'threads': nthreads,
-                     'segments': [list(s) for s in segments]},
+                    {'template': spec['name'], 'cooked': variant == 'cooked', 'variant': variant,
+                     'threads': nthreads, 'segments': [list(s) for s in segments]},
                     mech=mech,
-                    key='%s_%s_%s' % (spec['name'], 'c' if cooked else 'u',
+                    key='%s_%s_%s' % (spec['name'], VKEY[variant],
                                       '_'.join('%d.%s' % (a, b) for a, b in segments)[:60]),
-                    detail={'preempted_at': sites, 'source': spec['src']})
+                    detail={'preempted_at': sites, 'source': spec['src'], 'kind': kind})
                 break
         return ws
+
+
+DEEP_KINDS = ('3t2p', '2t3p', '2t4p')
 
 
 def short(r, n=160):
@@ -375,6 +634,37 @@ def two_preemptions(runner, spec, cooked, ctx, traces, idx_filter, cap, rng):
             runner.execute(spec, cooked, 2, [(p, k1), (q, k2), (p, None), (q, None)], kind='2p')
 
 
+def same_place(runner, spec, cooked, ctx, traces, idx_filter, stride):
+    """Both threads stopped at the same place: A runs k steps, B runs up to the matching step of
+    its own trace (the same (file,line), same occurrence number: the same tag instance when both
+    follow the same path), then A finishes, then B.  A single preemption never has two threads
+    inside one region, and the 2-preemption pairs over de-duplicated sites are a sparse sample of
+    that diagonal; here every `stride`-th step of the baseline trace is taken, roles alternating."""
+    t0, t1 = traces
+    occ1 = {}
+    for i, site in enumerate(t1):
+        occ1.setdefault(site, []).append(i)
+    seen = {}
+    n = 0
+    for k0, site in enumerate(t0):
+        nth = seen.get(site, 0)
+        seen[site] = nth + 1
+        if k0 % stride:
+            continue
+        lst = occ1.get(site)
+        if not lst:
+            continue
+        k1 = lst[min(nth, len(lst) - 1)]
+        n += 1
+        if not idx_filter(n):
+            continue
+        if n % 2:
+            segs = [(0, k0), (1, k1), (0, None), (1, None)]
+        else:
+            segs = [(1, k1), (0, k0), (1, None), (0, None)]
+        runner.execute(spec, cooked, 2, segs, kind='same')
+
+
 def random_schedules(runner, spec, cooked, ctx, steps, count, rng, nthreads=3):
     """Seeded random multi-preemption schedules of 3 threads (priority-change-point style:
     d change points at random step positions; at each one the running thread yields to another)."""
@@ -388,6 +678,113 @@ def random_schedules(runner, spec, cooked, ctx, steps, count, rng, nthreads=3):
             cur = rng.choice([x for x in range(nthreads) if x != cur])
         segs.append((cur, None))
         runner.execute(spec, cooked, nthreads, segs, kind='pct')
+
+
+def discover(runner, spec, variant, ctx):
+    """Preemption points of threads 0..2 for the deep compile-race schedules: every thread
+    renders alone, under the scheduler, a fresh template of the *logging* subclass; the points
+    are the step budgets right before / after each line that touches a conflicting instance
+    attribute of the shared template objects (see vlib/c18_util.py).  Diagnosis only: when the
+    log gives nothing, evenly spaced sites of the compile window are used instead."""
+    sched = runner.sched
+    U.LOG.sched = sched
+    pts = []
+    for i in range(3):
+        t = make_template(spec, variant, logged=True)
+        U.LOG.events = ev = []
+        try:
+            w = sched.execute([thunk(t, spec, i)], [(0, None)], trace=True)[0]
+        finally:
+            U.LOG.events = None
+        ctx.count('discovery: solo runs with the logging subclass')
+        p = []
+        if w.result != runner.expect(spec, i):
+            ctx.count('discovery: logging subclass changed a result (its points not used)')
+        else:
+            p, written = U.access_points(ev, w.steps, w.trace, both_ends=ctx.tier == 'thorough')
+            for n in written:
+                ctx.table('conflicting_attributes', n)
+        if p:
+            ctx.count('discovery: point lists from the access log')
+        else:
+            w2 = sched.execute([thunk(make_template(spec, 'cooked'), spec, i)], [(0, None)])[0]
+            w3 = sched.execute([thunk(make_template(spec, variant), spec, i)], [(0, None)], trace=True)[0]
+            p = U.fallback_points(w3.trace, w2.steps)
+            ctx.count('discovery: point lists from the compile-window fallback')
+        pts.append(p)
+    return pts
+
+
+def deep_unit(runner, spec, variant, ctx, mine):
+    """Deep schedules of one (template, uncompiled variant)."""
+    import random
+    thorough = ctx.tier == 'thorough'
+    pts = discover(runner, spec, variant, ctx)
+    if mine(0):
+        ctx.table('deep_points', '%s/%s' % (spec['name'], variant), sum(len(p) for p in pts))
+    rnd = random.Random(ctx.seed * 104729 + sum(map(ord, spec['name'] + variant)))
+    n = 0
+    for segs in U.sched_3t2p(pts, all_roles=thorough):
+        n += 1
+        if mine(n):
+            runner.execute(spec, variant, 3, segs, kind='3t2p')
+    full = thorough or spec['file'] or spec['name'] == 'var'
+    if thorough or variant == 'uncooked':
+        for (p, q) in ((0, 1), (1, 0)):
+            lst = list(U.sched_2t3p(pts, p, q))
+            cap = 12 if not full else (330 if not thorough else 20000)
+            if len(lst) > cap:
+                lst = rnd.sample(lst, cap)
+                ctx.count('2t3p: schedule lists capped')
+            for segs in lst:
+                n += 1
+                if mine(n):
+                    runner.execute(spec, variant, 2, segs, kind='2t3p')
+    if thorough:
+        for (p, q) in ((0, 1), (1, 0)):
+            lst = list(U.sched_2t4p(pts, p, q))
+            cap = 2000 if spec['file'] else 500
+            if len(lst) > cap:
+                lst = rnd.sample(lst, cap)
+                ctx.count('2t4p: schedule lists capped')
+            for segs in lst:
+                n += 1
+                if mine(n):
+                    runner.execute(spec, variant, 2, segs, kind='2t4p')
+
+
+def order_unit(runner, spec, ctx, mine):
+    n = 0
+    for variant in VARIANTS:
+        for segs in U.sched_orders(3):
+            n += 1
+            if mine(n):
+                runner.execute(spec, variant, 3, segs, kind='orders')
+
+
+GROUP = 4          # shards sharing one deep unit (they split its executions)
+
+
+def deep_schedules(runner, specs, ctx):
+    ngroups = max(1, ctx.nshards // GROUP)
+    group, member = ctx.shard % ngroups, ctx.shard // ngroups
+    members = len([x for x in range(ctx.nshards) if x % ngroups == group])
+    units = [(spec, 'uncooked') for spec in specs]
+    # restored (deep copy through __getstate__): in quick only where the copy differs in kind from
+    # a fresh object -- file based, shared sub-templates in the defaults, and the smallest template
+    units += [(spec, 'restored') for spec in specs
+              if ctx.tier == 'thorough' or spec['file'] or spec['defaults'] or spec['name'] == 'var']
+    units += [(spec, None) for spec in specs]
+    for u, (spec, variant) in enumerate(units):
+        if u % ngroups != group:
+            continue
+
+        def mine(n):
+            return n % members == member
+        if variant is None:
+            order_unit(runner, spec, ctx, mine)
+        else:
+            deep_unit(runner, spec, variant, ctx, mine)
 
 
 def install(ctx):
@@ -411,6 +808,10 @@ def warm(specs):
             sequential(spec, i)
 
 
+OLD_UNITS = 52     # (template, variant) units of the generic loop before the workload grew:
+#                    the number of random schedules per unit is kept at what it was then
+
+
 def run(ctx, spec_):
     from vlib.sched import HarnessStuck
     specs = all_templates()
@@ -426,16 +827,20 @@ def run(ctx, spec_):
 
     try:
         for spec in specs:
-            for cooked in (True, False):
+            for variant in spec['variants']:
+                cooked = variant == 'cooked'
                 steps, traces = one_preemption(runner, spec, cooked, ctx, mine)
                 if ctx.shard == 0:
-                    ctx.table('steps_per_template', '%s/%s' % (spec['name'], 'cooked' if cooked else 'uncooked'),
-                              sum(steps))
+                    ctx.table('steps_per_template', '%s/%s' % (spec['name'], variant), sum(steps))
                 cap = 150 if quick else 12000
                 two_preemptions(runner, spec, cooked, ctx, traces, mine, cap,
                                 __import__('random').Random(ctx.seed * 7919 + len(spec['name'])))
-                nrand = (2000 if quick else 100000) // (len(specs) * 2 * ctx.nshards) + 1
+                if not quick or cooked or len(spec['variants']) == 1:
+                    # quick: the render phase is the same in both variants, once is enough
+                    same_place(runner, spec, cooked, ctx, traces, mine, 16 if quick else 4)
+                nrand = (2000 if quick else 100000) // (OLD_UNITS * ctx.nshards) + 1
                 random_schedules(runner, spec, cooked, ctx, steps, nrand, rng)
+        deep_schedules(runner, specs, ctx)
     except HarnessStuck:
         pass
     ctx.count('line events seen in package files', sched.line_events)
@@ -457,20 +862,40 @@ def finish(agg):
         inc.append('LINE callback saw no package line in any worker')
     if not c.get('preemptions taken'):
         inc.append('no preemption was ever taken (threads never overlapped)')
-    for k in ('executions:1p', 'executions:2p', 'executions:pct'):
+    kinds = ['executions:1p', 'executions:2p', 'executions:pct', 'executions:same', 'executions:3t2p',
+             'executions:2t3p', 'executions:orders']
+    if agg['tier'] == 'thorough':
+        kinds.append('executions:2t4p')
+    for k in kinds:
         if not c.get(k):
             inc.append('no schedule of kind %s ran' % k)
+    for k in ('3t2p', '2t3p'):
+        if c.get('executions:' + k) and not c.get('preemptions taken:' + k):
+            inc.append('the deep schedules of kind %s never took a preemption' % k)
     if not c.get('cooklock: blocked acquisitions'):
         inc.append('no schedule made a thread wait for the cook lock (compile race not exercised)')
+    if not c.get('executions on file based templates with a preemption taken'):
+        inc.append('no overlapping execution on a file based template')
+    if not c.get('per-thread comparison function calls under schedules'):
+        inc.append('the per-thread comparison functions of sort="key/func" were never called under a schedule')
+    if not c.get('per-thread namespace callables called under schedules'):
+        inc.append('the per-thread namespace callables were never called under a schedule')
     sites = agg['tables'].get('preemption_sites', {})
+    specs = all_templates()
     return {'inconclusive': inc,
             'coverage': {'distinct_preemption_sites': len(sites),
-                         'templates': len(all_templates()) * 2,
+                         'templates': sum(len(s['variants']) for s in specs),
+                         'deep_units': len(agg['tables'].get('deep_points', {})),
                          'exhaustive': False,
                          'single_preemption_all_steps': agg['tier'] == 'thorough',
                          'explanation': 'all single-preemption schedules of 2 threads at package-line '
                                         'granularity; 2-preemption schedules over de-duplicated sites '
-                                        '(capped per template, cap counted); random 3-thread schedules'}}
+                                        '(capped per template, cap counted); random 3-thread schedules; '
+                                        'deep compile-race schedules (3 threads/2 preemptions, 2 threads/3, '
+                                        'thorough 2 threads/4) over the access points of conflicting '
+                                        'template attributes, on uncooked and restored templates (caps '
+                                        'counted); the 6 preemption-free orders of 3 threads on 4 variants; '
+                                        'same-place schedules (both threads stopped at matching steps)'}}
 
 
 def replay(ctx, rep):
@@ -480,5 +905,6 @@ def replay(ctx, rep):
     warm([spec])
     sched = install(ctx)
     runner = Runner(ctx, sched)
-    runner.execute(spec, c['cooked'], c['threads'], [tuple(s) for s in c['segments']], kind='replay')
+    runner.execute(spec, c.get('variant') or c['cooked'], c['threads'], [tuple(s) for s in c['segments']],
+                   kind='replay')
     sched.uninstall()
